@@ -17,3 +17,4 @@ import TLX.Props.Translated.Suites
 import TLX.Props.Translated.QuicDissect2
 import TLX.Props.Translated.TlsSess2
 import TLX.Props.Translated.Reasm2
+import TLX.Props.Translated.KeySched
